@@ -35,6 +35,10 @@ import (
 
 const partH = "history"
 
+// reportKnown makes checkConversions report known findings instead of skipping them (set by the
+// deterministic regress test only).
+var reportKnown bool
+
 type oid struct {
 	h common.Hash
 	i uint16
@@ -169,7 +173,7 @@ func checkConversions(n *sim.Net) (fp, msg string, cs convStats) {
 			case types.ConversionType:
 				cs.confirmed++
 				if bound := convert(orig); d.Value().Cmp(bound) > 0 {
-					if regime == "before-slip-change" && stats.IsKnown("C20/H/credited-above-rate/before-slip-change") {
+					if regime == "before-slip-change" && stats.IsKnown("C20/H/credited-above-rate/before-slip-change") && !reportKnown {
 						stats.Excluded("C20/H/credited-above-rate/before-slip-change")
 						cs.knownAbove++
 						goto afterBound
@@ -184,7 +188,9 @@ func checkConversions(n *sim.Net) (fp, msg string, cs convStats) {
 				// L7: a confirmed conversion is worth at least the sender's slip bound (else it must be refused)
 				slip := c20fSlipOf(e.Data())
 				sb := new(big.Int).Div(new(big.Int).Mul(orig, new(big.Int).Sub(params.SlipAmountRange, slip)), params.SlipAmountRange)
-				if d.Value().Cmp(convert(sb)) < 0 {
+				if d.Value().Cmp(convert(sb)) < 0 && stats.IsKnown("C20/H/credited-below-slip-bound") && !reportKnown {
+					stats.Excluded("C20/H/credited-below-slip-bound")
+				} else if d.Value().Cmp(convert(sb)) < 0 {
 					return "credited-below-slip-bound", fmt.Sprintf("%s: credited %v although the sender's bound (slip %v) is worth %v at the applied rate", where, d.Value(), slip, convert(sb)), cs
 				}
 			default:
@@ -225,7 +231,7 @@ func checkConversions(n *sim.Net) (fp, msg string, cs convStats) {
 			}
 			if !convs[i].ToQi && d.EtxType() == types.ConversionRevertType && xi == len(zchain)-1 {
 				// judged only while nothing can have spent or trimmed the refund yet (executed in the head block)
-				if minted.Cmp(orig) != 0 && stats.IsKnown("C20/H/qi-refund-not-exact") && minted.Cmp(orig) < 0 {
+				if minted.Cmp(orig) != 0 && stats.IsKnown("C20/H/qi-refund-not-exact") && minted.Cmp(orig) < 0 && !reportKnown {
 					stats.Excluded("C20/H/qi-refund-not-exact")
 				} else if minted.Cmp(orig) != 0 {
 					return "qi-refund-not-exact", fmt.Sprintf("%s: refused Qi->Quai conversion executed in #%d returned outputs worth %v qits, the original amount is %v", where, xnum, minted, orig), cs
